@@ -46,6 +46,30 @@ Definition session (k : skind) (o : wopts) (nilroots : bool) (roots : list bytes
     Ok (s2, outs, fo)
   end.
 
+(* ---- carv2.ApplyOptions ------------------------------------------------------------------------------
+   What the stores work with is the Options value ApplyOptions returns: a zero IndexCodec /
+   MaxIndexCidSize means the default, and MaxIndexCidSize is capped at the largest CID an index record
+   can carry -- a record is the multihash digest plus an 8-byte offset and index.ReadFrom refuses
+   records wider than 32 MiB (repaired: notes/fixes/C05-cap-max-index-cid-size.patch; before, a larger
+   CID was indexed by Finalize and the index could not be read back). *)
+Definition max_index_cid : N := max_width - 8.
+Definition apply_wopts (o : wopts) : wopts :=
+  mkwopts (w_dpad o) (w_ipad o)
+          (if w_codec o =? 0 then codec_mh_sorted else w_codec o)
+          (w_zeof o)
+          (N.min (if w_maxcid o =? 0 then 2048 else w_maxcid o) max_index_cid)
+          (w_storeid o) (w_dups o) (w_whole o) (w_v1 o) (w_maxh o) (w_maxs o).
+
+(* ShouldPut for the first block of a session (empty index), as a function of the CID's length only:
+   lets the check evaluate the decision for CIDs too large to ship as case data
+   (FinalWide.should_put_first_eq ties it to should_put) *)
+Definition should_put_first (o : wopts) (clen : N) (ident : bool) : res bool :=
+  if negb (w_storeid o) && ident then Ok false
+  else if w_maxcid o <? clen then Err ECidTooLarge
+  else Ok true.
+(* length of a CIDv1 with that codec, hash code and digest length *)
+Definition cid_v1_len (codec code n : N) : N := uv_size 1 + uv_size codec + uv_size code + uv_size n + n.
+
 (* ---- layer B: the stored blocks ---------------------------------------------------------------
    The de-duplicated puts in order.  The decision for one block is the library's ShouldPut
    evaluated on the index of what is stored so far (C04 is about what that decision means);
